@@ -10,7 +10,7 @@ ALL = ["C%02d" % i for i in range(1, 21)]
 CLAIMED = {
     "C10": ("fault_enumeration",
             "exhaustive fault/interruption-point enumeration over all composites up to length 3 (4 thorough) on the real ChangeSet/History code",
-            "Every composite change enabled in a dictionary model of the tree (23 sub-change alphabet, nested variants, three real refactoring change sets) is executed on the real implementation once per deviation: a fault at every mutating fs command and a stop() at every task-handle notification, during do, undo and redo; after each, the tree snapshot, the identity of the history lists and a fault-free retry are checked.",
+            "Every composite change enabled in a dictionary model of the tree (24 sub-change alphabet incl. a move the file system refuses so that the composite fails by itself, nested variants, three real refactoring change sets) is executed on the real implementation once per deviation: a fault at every mutating fs command and a stop() at every task-handle notification, during do, undo and redo; after each, the tree snapshot, the identity of the history lists and a fault-free retry are checked.",
             "fault model: failing command raises and has no effect; one deviation per execution; rollback runs fault-free; bounded alphabet and length", "3/C10"),
     "C11": ("model_checking",
             "explicit-state exploration of all do/undo/redo/selective/drop histories to depth 4 (5-6 thorough) on the real History, against a dictionary reference model",
@@ -22,7 +22,7 @@ CLAIMED = {
             "process-death crash model (program-order prefixes of what reached the OS); strace log is trusted and the harness exits 2 if replaying all effects does not reproduce the real final rope folder", "3/C18"),
     "C12": ("model_checking",
             "differential explicit-state exploration: every history to depth 3 (4 thorough) replayed on the real code with and without close/reopen at every position; exhaustive serializer round trip over all values up to a node bound",
-            "Every feasible sequence of 17 operations is executed on the real implementation straight through and again with close()+reopen inserted at each position (thorough: each pair), then driven through undo-all/redo-all and selective undo/redo probes; the two runs must agree observation by observation (history lists with contents, tree after every probe step, stored object info across the reopen). All nested values with <=4 (6) nodes over a collision-prone atom alphabet are round-tripped through JSON text for both serializer versions with type-exact comparison.",
+            "Every feasible sequence of 20 operations (incl. one path used as a file and later as a folder) is executed on the real implementation straight through and again with close()+reopen inserted at each position (thorough: each pair), then driven through undo-all/redo-all and selective undo/redo probes; the two runs must agree observation by observation (history lists with contents, tree after every probe step, stored object info across the reopen). All nested values with <=5 (6) nodes over a collision-prone atom alphabet are round-tripped through JSON text for both serializer versions with type-exact comparison.",
             "differential oracle: the run without reopen is the reference; bounded depth and value size; time stamps not compared", "3/C12"),
     "C16": ("exploration",
             "bounded-exhaustive enumeration of file contents x newline convention x encoding declaration x edit, executed on the real File/ChangeContents/Rename code with independently computed expected bytes",
@@ -30,11 +30,11 @@ CLAIMED = {
             "expected bytes computed independently of rope's codec/newline code; mixed newlines and unencodable contents excluded by the property", "3/C16"),
     "C13": ("model_checking",
             "explicit-state exploration of mutation/external-edit/query histories to depth 3 (4-5 thorough) on one long-lived real Project, differential against a brand-new Project after every sequence",
-            "Every enabled sequence over 25 events (13 mutations through rope, 6 changes behind rope's back + validate(), 6 cache-warming queries) is replayed on a long-lived real Project with an observing AutoImport index; then files, python files, find_module, per-module source/names/definition locations/inferred types and attribute sets, find_occurrences and the AutoImport index are compared with a brand-new Project (fresh index) on the same directory.",
+            "Every enabled sequence over 31 events (15 mutations through rope incl. moves across the default ignore pattern, 6 changes behind rope's back + validate(), 7 cache-warming queries incl. the scope names of a star-importing module) is replayed on a long-lived real Project with an observing AutoImport index; then files, python files, find_module, per-module source/names/scope name table/lookups/definition locations/inferred types and attribute sets, package contents, find_occurrences and the AutoImport index are compared with a brand-new Project (fresh index) on the same directory.",
             "the fresh project is the reference; time stamps owned by a logical clock; AutoImport indexes filled with update_resource (no process pool); bounded depth and alphabet", "3/C13"),
     "C03": ("exploration",
             "bounded-exhaustive enumeration of (function body, region, options) with CPython execution before/after as the oracle",
-            "All bodies of <=2 (3) statements over 20 data-flow atoms in a function and a method host x every contiguous statement run at every nesting level and every sub-expression x ExtractMethod/ExtractVariable x similar/global_/kind options are refactored with the real code; each performed result is compiled and executed for inputs 0,1,2 and must print what the original printed; refusals must leave the disk unchanged.",
+            "All bodies of <=2 (3) statements over 20 data-flow atoms in a function host, a method host, module-level hosts (inside a loop and directly in the module body) and a class whose classmethod/staticmethod/regular sibling methods repeat the body x every contiguous statement run at every nesting level and every sub-expression x ExtractMethod/ExtractVariable x similar/global_/kind options are refactored with the real code; each performed result is compiled and executed for inputs 0,1,2 and must print what the original printed; refusals must leave the disk unchanged.",
             "behaviour is compared on the enumerated inputs only; bounded body length and atom alphabet", "3/C03"),
     "C04": ("exploration",
             "bounded-exhaustive enumeration of (definition shape, call-site list, host, query point, options) with CPython execution before/after as the oracle",
@@ -66,7 +66,7 @@ CLAIMED = {
             "reference binder = language rules over ast + import transparency + statically known attributes/keyword arguments, validated against symtable per program; dynamic tokens are neither required nor forbidden", "3/C02"),
     "C15": ("exploration",
             "bounded-exhaustive enumeration of binding constructs x scope chains, rope's scopes/name tables/lookups compared with a reference binder that is validated against CPython's symtable on every program",
-            "40 binding atoms x 12 function/class nesting chains (depth 3) x outer-binding variations (uniform and independent per level) x 10 parameter kinds; per program: scope tree with line extents, owned names per scope, lookup() of every read name from its scope, holding scope per body line.",
+            "60 binding atoms (incl. starred targets, comprehensions in every statement position, dedented comments) x 19 function/class nesting chains (depth 3, incl. @property/@staticmethod methods) x outer-binding variations (uniform and independent per level) x 10 parameter kinds; per program: scope tree with line extents, owned names per scope, lookup() of every read name from its scope, holding scope per body line.",
             "binder vs symtable agreement is a precondition (HARNESS otherwise); lambda scopes not compared; PEP 709 inlining accounted for", "3/C15"),
     "C14": ("exploration",
             "bounded-exhaustive enumeration of texts (statement templates x literal/expression atoms, one and two statements) x every offset and line, compared with CPython's tokenize and ast",
@@ -86,7 +86,7 @@ CLAIMED = {
             "binder validated against symtable per module; positions inside strings, comments, def/class/import/global lines and comprehension/lambda interiors are not judged for completeness", "3/C20"),
     "C09": ("exploration",
             "bounded-exhaustive enumeration of (project configuration, refactoring kind, every identifier offset, resources= restriction) with full snapshots of the project root and a sibling out-of-project folder before/after get_changes and do",
-            "20 refactoring kinds are requested at every identifier token of every module of 4 projects (plain; names imported from a sibling folder on python_path; ignored resources given by name and by a `//` pattern and imported by a normal module; a module with a syntax error), with resources= None / [this file] / [another file]; get_changes (or its refusal) must leave both trees byte- and mtime-identical, any exception must be a RopeError, and after do only announced, in-project, non-ignored resources may differ and the description must contain the real diff.",
+            "21 refactoring kinds (incl. MoveMethod to an attribute whose class lives outside the project / in an ignored module) are requested at every identifier token of every module of 4 projects (plain; names imported from a sibling folder on python_path; ignored resources given by name and by a `//` pattern and imported by a normal module; a module with a syntax error), with resources= None / [this file] / [another file]; get_changes (or its refusal) must leave both trees byte- and mtime-identical, any exception must be a RopeError, and after do only announced, in-project, non-ignored resources may differ and the description must contain the real diff.",
             "snapshots compare path set, kinds, bytes, mtimes; ignored files carried along by the announced move of their non-ignored folder are accepted", "3/C09"),
 }
 
